@@ -77,8 +77,8 @@ pub fn core_spaces(tier: &str, seed: i64, heavy: bool) -> Vec<Space> {
         } else {
             v.push(Space::all(Universe::U4 { a: code(P, true), b: code(P, false), files: Some((3, 4)) }));
         }
-        v.push(Space::bfs("startpos", ROOT_START, 3));
-        v.push(Space::bfs("kiwipete", ROOT_KIWI, 2));
+        v.push(Space::bfs("startpos", ROOT_START, if heavy { 3 } else { 4 }));
+        v.push(Space::bfs("kiwipete", ROOT_KIWI, if heavy { 2 } else { 3 }));
         v.push(Space::bfs("perft3", ROOT_P3, 3));
         v.push(Space::bfs("perft4", ROOT_P4, 2));
         v.push(Space::bfs("perft5", ROOT_P5, 2));
